@@ -3,6 +3,31 @@ import time
 import z3
 
 
+_lang_cache = {}
+
+
+def lang_relation(L, R):
+    """for all strings x in L:  True if x in R always, False if never, None otherwise (single-variable queries, cached)"""
+    key = (L.sexpr(), R.sexpr())
+    if key in _lang_cache:
+        return _lang_cache[key]
+    x = z3.String('lang_probe')
+    res = None
+    s = z3.Solver()
+    s.set('timeout', 3000)
+    s.add(z3.InRe(x, L), z3.Not(z3.InRe(x, R)))
+    if s.check() == z3.unsat:
+        res = True
+    else:
+        s2 = z3.Solver()
+        s2.set('timeout', 3000)
+        s2.add(z3.InRe(x, L), z3.InRe(x, R))
+        if s2.check() == z3.unsat:
+            res = False
+    _lang_cache[key] = res
+    return res
+
+
 class Unsupported(Exception):
     """Construct outside the modelled subset -> the unit is undecided (never a violation)."""
 
@@ -42,9 +67,16 @@ class Obligation:
 
 
 class Ctx:
-    FEAS_TIMEOUT_MS = int(__import__('os').environ.get('PYVC_FEAS_MS', '400'))
+    FEAS_TIMEOUT_MS = int(__import__('os').environ.get('PYVC_FEAS_MS', '200'))
+
+    USE_CVC5 = True
+    CVC5_FEAS_MS = int(__import__('os').environ.get('PYVC_CVC5_FEAS_MS', '80'))
 
     def __init__(self, decisions=()):
+        self.cvc5_checks = 0
+        self.refuted = set()
+        self.guard_depth = 0
+        self.lang_of = {}
         self.decisions = list(decisions)
         self.taken = []
         self.pending = []
@@ -56,6 +88,59 @@ class Ctx:
         self.feas_checks = 0
         self.effects = []       # (kind, owner, name) global/class stores, heap writes
         self.assumed = []       # named assumptions used on this path
+
+    # -- language facts: InRe(x, L) for a plain variable x, used to decide later tests on x without the path ----
+    def note_lang(self, t):
+        if z3.is_app(t) and t.decl().kind() == z3.Z3_OP_SEQ_IN_RE and z3.is_const(t.arg(0)) \
+                and t.arg(0).decl().kind() == z3.Z3_OP_UNINTERPRETED:
+            vid = t.arg(0).get_id()
+            old = self.lang_of.get(vid)
+            self.lang_of[vid] = t.arg(1) if old is None else z3.Intersect(old, t.arg(1))
+
+    def term_in_star(self, t, R):
+        """structural proof that the string term t is in the star-closed language R (R = C* for a character class C)"""
+        t = z3.simplify(t)
+        if z3.is_string_value(t):
+            return z3.is_true(z3.simplify(z3.InRe(t, R)))
+        if z3.is_app(t) and t.decl().kind() == z3.Z3_OP_SEQ_CONCAT:
+            return all(self.term_in_star(t.arg(i), R) for i in range(t.num_args()))
+        L = self.lang_of.get(t.get_id())
+        if L is not None:
+            return lang_relation(L, R) is True
+        return False
+
+    def fixed_len(self, t):
+        """length of the string term if it is the same for every value allowed by its language fact, else None"""
+        t = z3.simplify(t)
+        if z3.is_string_value(t):
+            return z3.simplify(z3.Length(t)).as_long()
+        L = self.lang_of.get(t.get_id())
+        if L is None:
+            return None
+        allc = z3.AllChar(z3.ReSort(z3.StringSort()))
+        for k in (1, 2, 3, 4):
+            if lang_relation(L, z3.Loop(allc, k, k)) is True:
+                return k
+        return None
+
+    def decide_by_language(self, cond):
+        """True / False if the condition follows from (contradicts) the known language of its variable, else None"""
+        neg = False
+        c = cond
+        if z3.is_not(c):
+            neg, c = True, c.arg(0)
+        ans = None
+        if z3.is_app(c) and c.decl().kind() == z3.Z3_OP_SEQ_IN_RE and c.arg(0).get_id() in self.lang_of:
+            ans = lang_relation(self.lang_of[c.arg(0).get_id()], c.arg(1))
+        elif z3.is_app(c) and c.decl().kind() == z3.Z3_OP_LE and c.num_args() == 2:
+            # Length(x) <= 0
+            a, b = c.arg(0), c.arg(1)
+            if z3.is_app(a) and a.decl().kind() == z3.Z3_OP_SEQ_LENGTH and z3.is_int_value(b) and b.as_long() == 0 \
+                    and a.arg(0).get_id() in self.lang_of:
+                ans = lang_relation(self.lang_of[a.arg(0).get_id()], z3.Re(''))
+        if ans is None:
+            return None
+        return (not ans) if neg else ans
 
     # -- path condition -------------------------------------------------
     def assume(self, t):
@@ -69,15 +154,60 @@ class Ctx:
         if z3.is_false(t):
             raise PathInfeasible()
         self.pc.append(t)
-        self.solver.add(t)
+        self.note_lang(t)
 
     def feasible(self, t):
+        """fresh solver per query: z3's incremental mode is far weaker on strings than a one-shot check"""
+        # syntactic shortcuts: the condition or its negation is already on the path
+        tid = t.get_id() if z3.is_expr(t) else None
+        if tid is not None:
+            ids = {(c[1] if isinstance(c, tuple) else c).get_id() for c in self.pc}
+            if tid in ids:
+                return True
+            if z3.is_not(t) and t.arg(0).get_id() in ids:
+                return False
+            if tid in self.refuted:
+                return False
         self.feas_checks += 1
-        self.solver.push()
-        self.solver.add(t)
-        r = self.solver.check()
-        self.solver.pop()
+        from . import smt
+        cs = [c[1] if isinstance(c, tuple) else c for c in self.pc] + [t]
+        stringy = z3.is_expr(t) and (smt.has_strings(t) or any(smt.has_strings(c) for c in cs[-12:]))
+        if stringy and self.USE_CVC5:
+            # cvc5 refutes infeasible string paths in milliseconds; both solvers are slow to *find* string models,
+            # so "not refuted quickly" counts as feasible (sound: more paths, never fewer)
+            r2 = smt.cvc5_check(cs, self.CVC5_FEAS_MS)
+            self.cvc5_checks += 1
+            if r2 == 'unsat' and tid is not None and not self.guard_depth:
+                self.refuted.add(tid)
+            return r2 != 'unsat'
+        s = z3.Solver()
+        s.set('timeout', self.FEAS_TIMEOUT_MS)
+        for c in cs:
+            s.add(c)
+        r = s.check()
+        if r == z3.unknown and self.USE_CVC5:
+            r2 = smt.cvc5_check(cs, self.CVC5_FEAS_MS)
+            self.cvc5_checks += 1
+            return r2 != 'unsat'
+        if r == z3.unsat and tid is not None and not self.guard_depth:
+            self.refuted.add(tid)       # stays refuted: the path condition only grows
         return r != z3.unsat     # unknown counts as feasible (sound for proving)
+
+    def feasible_strong(self, budget_ms=1500):
+        """a more expensive infeasibility test used at the few points where many spurious paths are born
+        (after a regex alternative was chosen): both solvers, larger budget; unknown counts as feasible"""
+        from . import smt
+        cs = [c[1] if isinstance(c, tuple) else c for c in self.pc]
+        r2 = smt.cvc5_check(cs, budget_ms)
+        if r2 == 'unsat':
+            return False
+        if r2 == 'sat':
+            return True
+        s = z3.Solver()
+        s.set('timeout', budget_ms)
+        for c in cs:
+            s.add(c)
+        return s.check() != z3.unsat
 
     def branch(self, cond):
         """Decide a symbolic condition (z3 Bool). Returns python bool; forks via replay."""
@@ -88,6 +218,9 @@ class Ctx:
             return True
         if z3.is_false(cond):
             return False
+        known = self.decide_by_language(cond)
+        if known is not None:
+            return known        # implied by a language fact already on the path: nothing to add
         idx = len(self.taken)
         if idx < len(self.decisions):
             choice = self.decisions[idx]
@@ -107,11 +240,10 @@ class Ctx:
         self.taken.append(choice)
         if choice:
             self.pc.append(cond)
-            self.solver.add(cond)
+            self.note_lang(cond)
             return True
         nc = z3.Not(cond)
         self.pc.append(nc)
-        self.solver.add(nc)
         return False
 
     def choose(self, n, label=''):
@@ -129,22 +261,20 @@ class Ctx:
     # -- scoped guards (spec-mode short-circuit evaluation) ---------------
     def push_guard(self, g):
         """returns a mark, or None when the guard is infeasible on this path (caller must short-circuit)"""
-        self.solver.push()
-        self.solver.add(g)
         self.pc.append(('GUARD', g))
+        self.guard_depth += 1
         return len(self.pc) - 1
 
     def pop_guard(self, mark):
         g = self.pc[mark][1]
         inner = self.pc[mark + 1:]
         del self.pc[mark:]
-        self.solver.pop()
+        self.guard_depth -= 1
         for c in inner:
             if isinstance(c, tuple):
                 continue
             imp = z3.Implies(g, c)
             self.pc.append(imp)
-            self.solver.add(imp)
 
     # -- obligations ------------------------------------------------------
     def oblige(self, name, goal, where='', kind='ensures', assume_after=True):
